@@ -62,6 +62,7 @@ func normQO(o *message.QueryOptions, v primitive.ProtocolVersion) *message.Query
 	}
 	if o.PositionalValues != nil {
 		o.PositionalValues = normValues(o.PositionalValues)
+		o.NamedValues = nil // positional values are preferred and named ones ignored (documented on QueryOptions)
 	}
 	for k, x := range o.NamedValues {
 		o.NamedValues[k] = normValue(x)
